@@ -85,7 +85,10 @@ def main():
     n, _ = props.run_to_file(["dma-trace", "--events", 1500], p)
     L = lines_of(p)
     i = next(k for k in range(50, len(L) - 1) if json.loads(L[k])["ev"] == "adv" and json.loads(L[k])["act"] == 1
-             and json.loads(L[k])["off"] != json.loads(L[k - 1])["off"] and json.loads(L[k + 1])["ev"] == "adv")
+             and json.loads(L[k])["off"] != json.loads(L[k - 1])["off"] and json.loads(L[k + 1])["ev"] == "adv"
+             # (the transfer must still be going after the next batch: two batches that together finish it leave the same
+             #  state as the second alone would, which is the batching independence the property states, not a missed drop)
+             and json.loads(L[k + 1])["act"] == 1)
     expect("Trace_Dma", "Trace_Dma", L, i, lambda r: r["oam"].__setitem__(r["off"] - 1, r["oam"][r["off"] - 1] ^ 0x40))
     # whole machine: registers, write list, serial bytes; clock projection
     scs = gbprog.structured_programs(4, rng, steps=300) + gbprog.serial_programs(2, rng)
